@@ -734,6 +734,11 @@ func (e *Exec) appendOp(s *SliceV, t Value, c *ssa.CallCommon) Value {
 	if n == 0 {
 		return s
 	}
+	if !s.len.IsConst() {
+		// make the destination length concrete (usually the path condition fixes it) so that the
+		// element stores below hit concrete cells instead of symbolic indices
+		s = &SliceV{arr: s.arr, off: s.off, len: e.c64(int64(e.concLen(s.len, "append destination length"))), cap: s.cap}
+	}
 	newLen := tb.Add(s.len, e.c64(n))
 	fits := tb.Ule(newLen, s.cap)
 	if s.arr != nil && e.branch(fits, "append-fits") {
@@ -793,6 +798,34 @@ func (e *Exec) copyOp(dst *SliceV, srcV Value) Value {
 		for i := 0; i < max; i++ {
 			c := dst.arr.cells[do+i]
 			e.setLeaf(c, tb.Ite(tb.Ult(e.c64(int64(i)), n), vals[i], c.v.(*Term)))
+		}
+		return n
+	}
+	if (!n.IsConst() || !dst.off.IsConst() || !soff.IsConst()) && dst.arr != nil && sarr != nil && scalarCells(dst.arr) && scalarCells(sarr) &&
+		len(dst.arr.cells) <= 1024 && len(sarr.cells) <= 1024 && len(sarr.cells) > 0 {
+		// general symbolic copy: every destination cell j becomes
+		//   ite(off <= j < off+n, src[soff + (j-off)], old)
+		srcT := make([]*Term, len(sarr.cells))
+		for i, c := range sarr.cells {
+			srcT[i] = c.v.(*Term)
+		}
+		e.noteWrite(dst.arr.obj, "copy")
+		end := tb.Add(dst.off, n)
+		newv := make([]*Term, len(dst.arr.cells))
+		for j, c := range dst.arr.cells {
+			jt := e.c64(int64(j))
+			in := tb.And(tb.Ule(dst.off, jt), tb.Ult(jt, end))
+			if in.IsFalse() {
+				newv[j] = c.v.(*Term)
+				continue
+			}
+			idx := tb.Add(soff, tb.Sub(jt, dst.off))
+			newv[j] = tb.Ite(in, e.selectTree(idx, srcT), c.v.(*Term))
+		}
+		for j, c := range dst.arr.cells {
+			if newv[j] != c.v {
+				e.setLeaf(c, newv[j])
+			}
 		}
 		return n
 	}
